@@ -309,3 +309,24 @@ PROPS["C19"] = dict(
                "code is differential on the pure pieces (window test, reserve/done, key function) and scenario-based e2e "
                "with a real clock for the composition; partial: goroutine scheduling itself is sampled, not enumerated",
 )
+
+
+# ---- concurrent reserve stress on the real prefetchCtl (failing-schedule search for C19_single_flight) ----
+def c19_stress_gen(rng, tier):
+    n = budget(tier, 4, 16)
+    return ["rs%d g=%d rounds=%d keys=%d" % (i, rng.choice([16, 64, 128]), budget(tier, 3000, 20000), rng.choice([1, 3, 17]))
+            for i in range(n)]
+
+
+def c19_stress_oracle(line, res):
+    f = gens.fields(res)
+    if res.startswith("rounds=") and (f.get("multi") != "0" or f.get("zero") != "0"):
+        return "concurrent reserve calls for one key: %s rounds with more than one winner (max %s), %s with none" % (
+            f.get("multi"), f.get("maxwin"), f.get("zero"))
+    return None
+
+
+PROPS["C19"]["kinds"].append(dict(name="reservestress", gen=c19_stress_gen, oracle=c19_stress_oracle, model=False,
+                                  nontrivial=lambda l, r: r.startswith("rounds="), timeout=600))
+PROPS["C19"]["rule"] += ("; reservestress: 16-128 goroutines released at once into the real prefetchCtl.reserve for one key, "
+                         "thousands of rounds: exactly one winner per round (schedule search for the single-flight invariant)")
